@@ -49,6 +49,7 @@ func main() {
 		}
 	})
 	randomDriver()
+	nilPeriodProbe()
 	run.Finish("cases = TLC-enumerated (base stack, single-attribute variant stack) pairs x label pairs x value pairs x split into 1..3 profiles, plus header tuples; each replayed under every permutation of the inputs and 2 concretisations (ids dense/reversed/sparse, shared/duplicated entities, decorated strings); non-trivial = case whose inputs contain two samples with equal stack identity, or a sum that cancels to zero, or stacks differing in exactly one attribute (distinct by expected bag + split)")
 }
 
@@ -440,4 +441,38 @@ func randomDriver() {
 		// keep the concrete input so that a rejected event can be replayed
 		run.Aux(map[string]interface{}{"n": it, "kind": "random", "profs": aps, "conc": conc})
 	}
+}
+
+// nilPeriodProbe: an in-memory profile need not have a period type (Write, Copy and CheckValid accept that);
+// two such profiles have EQUAL period types and merge like any others, and one with and one without are
+// incompatible - an error, not a crash.
+func nilPeriodProbe() {
+	mk := func(pt *profile.ValueType, v int64) *profile.Profile {
+		f := &profile.Function{ID: 1, Name: "f", SystemName: "f"}
+		l := &profile.Location{ID: 1, Line: []profile.Line{{Function: f, Line: 1}}}
+		return &profile.Profile{SampleType: []*profile.ValueType{{Type: "t", Unit: "u"}}, PeriodType: pt,
+			Sample: []*profile.Sample{{Location: []*profile.Location{l}, Value: []int64{v}}}, Location: []*profile.Location{l}, Function: []*profile.Function{f}}
+	}
+	try := func(name string, ps []*profile.Profile, wantErr bool) {
+		run.Count("nil-period|" + name)
+		defer func() {
+			if r := recover(); r != nil {
+				run.Violate("header", "merge-panic:"+name, fmt.Sprintf("profile.Merge panicked: %v", r), name, nil)
+			}
+		}()
+		out, err := profile.Merge(ps)
+		switch {
+		case wantErr && err == nil:
+			run.Violate("header", "merge-accepted:"+name, "profiles with different period types were merged", name, nil)
+		case !wantErr && err != nil:
+			run.Violate("header", "merge-refused:"+name, err.Error(), name, nil)
+		case !wantErr:
+			if len(out.Sample) != 1 || out.Sample[0].Value[0] != 12 || out.PeriodType != nil {
+				run.Violate("header", "merge-wrong:"+name, fmt.Sprintf("%d samples, period type %v", len(out.Sample), out.PeriodType), name, nil)
+			}
+		}
+	}
+	try("nil-period-types", []*profile.Profile{mk(nil, 5), mk(nil, 7)}, false)
+	try("nil-and-set-period-type", []*profile.Profile{mk(nil, 5), mk(&profile.ValueType{Type: "cpu", Unit: "ns"}, 7)}, true)
+	try("set-and-nil-period-type", []*profile.Profile{mk(&profile.ValueType{Type: "cpu", Unit: "ns"}, 5), mk(nil, 7)}, true)
 }
